@@ -447,6 +447,7 @@ def run_entry(vu, work, entry, tier, cover=False):
     to = int(os.environ.get("VERIF_TIMEOUT", entry.get("timeout", {"quick": 600, "thorough": 1800}[tier])))
     rc, so, se, dt = run(cmd, cwd=work, timeout=to)
     res = {"entry": name, "cmd": " ".join(cmd), "seconds": round(dt + t_inst, 2), "backend": backend,
+           "unwind_is_termination": bool(entry.get("unwind_is_termination")),
            "bounds": bounds, "mode": entry.get("mode", "B" if unwind else "P")}
     if rc == -9:
         raise Undecided("timeout", "%s %s after %ss" % (vu["name"], name, to))
@@ -669,6 +670,8 @@ def main():
                 obl = er["results"]
                 fails = [x for x in obl if x.get("status") == "FAILURE"]
                 unw = [x for x in fails if "unwinding assertion" in obligation_name(x) or ".unwind." in str(x.get("property"))]
+                if unw and er.get("unwind_is_termination"):
+                    unw = []      # this entry's bound is the termination obligation: keep the failures as violations
                 if unw:
                     # a loop ran past the stated bound: the bounded stand-in does not decide this entry
                     fails = [x for x in fails if x not in unw]
